@@ -35,7 +35,7 @@ theorem raw_onB (k : Sym) (n : Int) (m : Move) : onB n (Sym.raw k n m).x (Sym.ra
 
 /-- the scan by hashes is the scan by boards -/
 theorem scan_sim {basis : Array W} {Inv : Pos → Prop} (F : PosFacts2 basis Inv) {n : Nat} (hn : n ≤ 8)
-    (b0 : State) (hb0 : b0.size = n) (hwf : b0.WF) (q0 : Pos) (hq0 : Inv q0) (ha0 : Spec.abs q0 = b0)
+    (b0 : State) (hb0 : b0.size = n) (q0 : Pos) (hq0 : Inv q0) (ha0 : Spec.abs q0 = b0)
     (m : Move) (hm : onB n m.x m.y) :
     ∀ (l : List (Pos × Fin 8)) (best : Move) (rot : Option (Fin 8)), BoardsRel Inv n l b0 →
       (∀ qk ∈ l, qk.1.hashOf = q0.hashOf → Spec.abs qk.1 = Spec.abs q0) →
@@ -82,7 +82,7 @@ theorem scan_sim {basis : Array W} {Inv : Pos → Prop} (F : PosFacts2 basis Inv
       · exact ih _ _ hrest hncr
     · have hc' : ¬ ((q.hashOf == q0.hashOf) = true) := fun h => hc (hcond.1 h)
       have e1 : Tak.canonScan n q0.hashOf m ((q, k) :: rest) best rot = Tak.canonScan n q0.hashOf m rest best rot := by
-        simp only [Tak.canonScan, hc', if_false]; rfl
+        simp only [Tak.canonScan, hc']; rfl
       have e2 : Spec.canonScan b0 m (((q, k) :: rest).map (·.2)) (best, rot) =
           Spec.canonScan b0 m (rest.map (·.2)) (best, rot) := by
         simp only [List.map_cons, Spec.canonScan, hc, if_false]
@@ -207,7 +207,7 @@ theorem canonStep_sim {basis : Array W} {Inv : Pos → Prop} (F : PosFacts2 basi
         fun x hx => hboards x (List.mem_of_mem_drop hx)
       have hdropsnd : ((withIndex ist.boards).drop 1).map (·.2) = ([1, 2, 3, 4, 5, 6, 7] : List (Fin 8)) := by
         rw [List.map_drop, withIndex_snd hlen, finRange8_drop]
-      have hscan := scan_sim F hn sst.b0 hsize hwf q0 hq0i ha0 (Sym.raw sst.tfn n m0) hmB
+      have hscan := scan_sim F hn sst.b0 hsize q0 hq0i ha0 (Sym.raw sst.tfn n m0) hmB
         ((withIndex ist.boards).drop 1) (Sym.raw sst.tfn n m0) none hdrop
         (by
           intro qk hqk hh
